@@ -10,12 +10,12 @@ CONSTANTS
   NTok <- MC_Tok6_N
   TokAt <- MC_Tok6_At
   PolSeq <- MC_PolQ
-  Family <- MC_FamQ
+  Family <- MC_FamT
   MaxAttempts = 0
-  MaxCommit = 2
+  MaxCommit = 3
   MaxAbort = 0
   MaxFail = 0
-  MaxPlay = 5
+  MaxPlay = 6
   MaxPub = 3
   Export = TRUE
 VIEW MC_ViewPlay
